@@ -27,7 +27,9 @@ CONSTANTS Opcodes,    \* subset of {0, 4, 5}
           OptIdx,     \* subset of 0..Len(OptMenu): 0 = no extra option, i = append OptMenu[i] to the OPT
           SecSel,     \* sections record sets may go to (subset of 1..3)
           QuestionSel,\* subset of BOOLEAN: TRUE = a question may be added
-          QMax        \* questions per message (RFC 1035 allows QDCOUNT > 1)
+          QMax,       \* questions per message (RFC 1035 allows QDCOUNT > 1)
+          PayloadSel, \* advertised EDNS UDP payload sizes; 70000 = the one of the EDNS menu entry
+          ChildMax    \* record sets whose owner is a CHILD of the previous record set's owner (deep pointer chains)
 VARIABLE hist
 TtlOne == {<<0, 300>>}
 TtlMany == {<<0, 300>>, <<0, 0>>, <<32767, 65535>>}
@@ -66,6 +68,7 @@ OptMenu == <<
   <<19, <<>>>>, <<19, <<0, 0>>>>, <<19, <<1, 0, 0, 0, 0, 0>>>>, <<19, <<1, 0, 255, 255, 255, 255>>>>,
   <<20, <<>>>>, <<20, <<0>>>>, <<20, <<0, 0>>>>, <<20, <<255, 255>>>>,
   <<65001, <<>>>>, <<65001, <<0>>>>, <<65001, <<0, 0>>>>, <<65001, <<255, 255>>>>, <<65001, Fill(40, 255)>> >>
+WithPayload(ed, pl) == IF pl > 65535 \/ ed[1] = "none" THEN ed ELSE <<ed[1], ed[2], ed[3], pl, ed[5]>>
 WithOption(ed, i) == IF i = 0 \/ ed[1] = "none" THEN ed ELSE <<ed[1], ed[2], ed[3], ed[4], Append(ed[5], OptMenu[i])>>
 
 EdnsOf(e, rc) ==      \* <<"none">> or <<"edns", version, eflags, payload, options>>
@@ -100,10 +103,10 @@ Fresh(r) == LET rs == MkRRset(r, RfcCmp, Zc) IN
 
 GInit ==
     \E op \in Opcodes, bits \in BitSel, rc \in RcodeSel, e \in EdnsSel, org \in OriginSel,
-       id \in IdSel, pad \in PadSel, zc \in ZoneClsSel, mx \in MaxSel, oi \in OptIdx :
-      /\ (rc > 15 => e # "off") /\ (pad > 0 => e # "off") /\ (op # OpUpdate => zc = ClsIN) /\ (oi > 0 => e # "off")
+       id \in IdSel, pad \in PadSel, zc \in ZoneClsSel, mx \in MaxSel, oi \in OptIdx, pl \in PayloadSel :
+      /\ (rc > 15 => e # "off") /\ (pad > 0 => e # "off") /\ (op # OpUpdate => zc = ClsIN) /\ (oi > 0 => e # "off") /\ (pl <= 65535 => e # "off")
       /\ LET h == [op |-> "hdr", id |-> id, opcode |-> op, bits |-> bits, rcode |-> rc, origin |-> org,
-                   edns |-> WithOption(EdnsOf(e, rc), oi), pad |-> pad, zcls |-> zc, max |-> mx]
+                   edns |-> WithPayload(WithOption(EdnsOf(e, rc), oi), pl), pad |-> pad, zcls |-> zc, max |-> mx]
          IN hist = <<h>> /\ RInit(id, HdrFlags(h), mx)
 
 GQuestion ==
@@ -124,13 +127,21 @@ GRec ==
          /\ AddRRset(sec, MkRRset(r, RfcCmp, Zc))
          /\ H([op |-> "rr"] @@ r)
 
+\* a record set whose owner is one more label below the previous record set's owner: with compression every such
+\* owner is "label + pointer to the previous owner", so decoding the k-th needs k pointer hops
+GChild ==
+    /\ NRecs < ChildMax /\ hist[Len(hist)].op # "end" /\ Hdr.opcode # OpUpdate
+    /\ LET prev == IF NRecs = 0 THEN UName(1) ELSE Recs[NRecs].name
+           r == Rec(1, <<<<99>>>> \o prev, "A", NoName, NoName, 1, 1, <<0, 300>>, "plain")
+       IN /\ st.section <= 1 /\ AddRRset(1, MkRRset(r, RfcCmp, ClsIN)) /\ H([op |-> "rr"] @@ r)
+
 GEnd ==
     /\ hist[Len(hist)].op # "end"
     /\ (Hdr.opcode = OpUpdate => Len(hist) > 1)
     /\ IF Hdr.edns[1] = "edns" THEN AddOpt(HdrOpt(Hdr), Hdr.pad, IF Hdr.pad > 0 THEN PlainSize(HdrOpt(Hdr)) + 4 ELSE 0, 0) ELSE UNCHANGED st
     /\ H([op |-> "end"])
 
-GNext == GQuestion \/ GRec \/ GEnd
+GNext == GQuestion \/ GRec \/ GChild \/ GEnd
 GSpec == GInit /\ [][GNext]_gvars
 Emit == (hist[Len(hist)].op = "end") => PrintT("BEH " \o ToJson(hist))
 =============================================================================
